@@ -116,6 +116,20 @@ func genWS(cfg Config, emit func(string, bool, []string)) {
 					closeTime[i] = t
 				}
 			}
+			// HasAny over an arbitrary list (also the empty one) leaves the set usable
+			if r.IntN(3) == 0 {
+				var hs []string
+				for i := 0; i < nch; i++ {
+					if r.IntN(4) == 0 {
+						hs = append(hs, strconv.Itoa(i))
+					}
+				}
+				if len(hs) == 0 || r.IntN(4) == 0 {
+					add("hasany -")
+				} else {
+					add("hasany %s", strings.Join(hs, ","))
+				}
+			}
 			settle := []int{0, 0, 50, 100, 250}[r.IntN(5)]
 			// a wait must terminate: give a context deadline unless some member surely closes
 			ctx := -1
@@ -367,6 +381,20 @@ func (e *wsExec) Do(o *Out, f []string) string {
 			res = strings.Join(p, ",")
 		}
 		return fmt.Sprintf("%s err=%v t=%d", res, err != nil, t1)
+	case "hasany":
+		var cs []<-chan struct{}
+		want := false
+		if f[1] != "-" {
+			for _, i := range parseInts(f[1]) {
+				cs = append(cs, e.chans[i])
+				want = want || e.member[i]
+			}
+		}
+		got := e.ws.HasAny(cs)
+		if got != want {
+			o.Fail("C20", "membership-after-add-merge-clear", map[string]string{"op": "HasAny"}, fmt.Sprintf("HasAny(%s)=%v, want %v", f[1], got, want))
+		}
+		return strconv.FormatBool(got)
 	case "hasall":
 		var p []string
 		for i, c := range e.chans {
